@@ -152,6 +152,13 @@ func (tr *tracer) reset(stored []int, pex []string, att map[string][]string) {
 	tr.res.Traces++
 }
 
+func orOK(s string) string {
+	if s == "" {
+		return "ok"
+	}
+	return s
+}
+
 func orEmpty[T any](x []T) []T {
 	if x == nil {
 		return []T{}
@@ -185,9 +192,12 @@ func (tr *tracer) do(act Act) Outcome {
 	case "BeginRoots":
 		ev["off"], ev["len"], ev["pf"], ev["sf"] = act.Off, act.Len, act.Pf, act.Sf
 	case "BeginFund":
-		ev["deps"], ev["sf"] = orEmpty(act.Deps), act.Sf
+		ev["deps"], ev["sf"], ev["af"] = orEmpty(act.Deps), act.Sf, orOK(act.Af)
+		if len(act.Raw) > 0 {
+			ev["raw"] = act.Raw
+		}
 	case "BeginRepl":
-		ev["kind"], ev["accs"], ev["target"], ev["cf"] = act.Kind, orEmpty(act.Accs), act.Target, act.Cf
+		ev["kind"], ev["accs"], ev["target"], ev["cf"], ev["af"] = act.Kind, orEmpty(act.Accs), act.Target, act.Cf, orOK(act.Af)
 	case "BeginAttach", "BeginDetach":
 		ev["b"] = orEmpty(act.B)
 	case "BeginRead", "BeginWrite":
